@@ -882,6 +882,10 @@ func (interp *Interpreter) cfg(root *node, sc *scope, importPath, pkgName string
 					if sym, _, ok := sc.lookup(dest.ident); ok {
 						sym.kind = constSym
 					}
+					if i < n.nleft-1 {
+						// iota is incremented after each constant spec, not after each name.
+						continue
+					}
 					if childPos(n) == len(n.anc.child)-1 {
 						sc.iota = 0
 					} else {
